@@ -14,6 +14,7 @@ import (
 	"strconv"
 	"strings"
 	"sync"
+	"sync/atomic"
 	"syscall"
 	"time"
 )
@@ -142,6 +143,27 @@ func (c *Ctx) Begin(desc string) {
 }
 
 func (c *Ctx) Eval(n int) { c.Evals += int64(n) }
+
+// LibEnter / LibLeave bracket a call into the library under test (the Safe*
+// wrappers of the checks use them). The nesting count is mirrored in the
+// progress page, so that the parent can tell a case that is stuck inside a
+// library call from one that is stuck in the harness's own code.
+var (
+	libDepth int32
+	libPage  []byte
+)
+
+func LibEnter() {
+	if atomic.AddInt32(&libDepth, 1) > 0 && libPage != nil {
+		libPage[62] = 1
+	}
+}
+
+func LibLeave() {
+	if atomic.AddInt32(&libDepth, -1) <= 0 && libPage != nil {
+		libPage[62] = 0
+	}
+}
 
 func (c *Ctx) Count(key string, n int64) { c.Counters[key] += n }
 
@@ -286,6 +308,7 @@ func RunWorker(ck *Check, tier string, seed uint64, shard, shards int, fromPhase
 			for i := range m[:64] {
 				m[i] = 0
 			}
+			libPage = m
 		}
 		f.Close()
 	}
@@ -401,6 +424,7 @@ type progress struct {
 	idx, ticks uint64
 	phase      string
 	desc       string
+	inLib      bool
 }
 
 func readProgress(dir string, shard int) (p progress, ok bool) {
@@ -416,6 +440,7 @@ func readProgress(dir string, shard int) (p progress, ok bool) {
 		pn = 40
 	}
 	p.phase = string(b[21 : 21+pn])
+	p.inLib = b[62] != 0
 	if n > progSize-64 {
 		n = progSize - 64
 	}
@@ -451,6 +476,10 @@ func RunParent(ck *Check, tier string, seed uint64, self string) int {
 	var inconcl []string
 	var slow []string
 	var resFiles []string
+	// Once one case of this run has been confirmed not to terminate, the run
+	// can no longer end as "held": later suspects get a short limit and no
+	// confirmation, so that the rest of the exploration still finishes.
+	var hangSeen int32
 
 	var wg sync.WaitGroup
 	for sh := 0; sh < shards; sh++ {
@@ -494,7 +523,7 @@ func RunParent(ck *Check, tier string, seed uint64, self string) int {
 							if p.ticks != lastTicks {
 								lastTicks = p.ticks
 								lastChange = time.Now()
-							} else if time.Since(lastChange) > hangLimit && p.ticks > 0 {
+							} else if lim := hangLimit; p.ticks > 0 && (time.Since(lastChange) > lim || (atomic.LoadInt32(&hangSeen) != 0 && time.Since(lastChange) > lim/10)) {
 								hung = true
 								cmd.Process.Signal(syscall.SIGQUIT)
 								time.Sleep(500 * time.Millisecond)
@@ -527,7 +556,7 @@ func RunParent(ck *Check, tier string, seed uint64, self string) int {
 					kind = fmt.Sprintf("case did not terminate within %v", hangLimit)
 					isViol = ck.HangIsViolation
 					// A loaded machine can make a slow case look like a hang: the
-					// case is re-run alone, with five times the limit, before it
+					// case is re-run alone, with twice the limit, before it
 					// may be called one.
 					pi := 0
 					for i := range ck.Phases {
@@ -536,7 +565,19 @@ func RunParent(ck *Check, tier string, seed uint64, self string) int {
 						}
 					}
 					mu.Unlock()
-					confirmed := confirmHang(self, ck, tier, seed, pi, p.idx, 5*hangLimit)
+					confirmed := true
+					if atomic.LoadInt32(&hangSeen) != 0 {
+						kind = "case made no progress (not re-run: another case of this run was already confirmed not to terminate)"
+						isViol = false
+					} else if confirmed = confirmHang(self, ck, tier, seed, pi, p.idx, 2*hangLimit); confirmed {
+						atomic.StoreInt32(&hangSeen, 1)
+						if p.inLib {
+							// stuck inside a call into the library, alone, for
+							// twice the limit: the call does not return
+							kind = fmt.Sprintf("a call into the library did not return within %v (case re-run alone in a fresh process)", 2*hangLimit)
+							isViol = true
+						}
+					}
 					mu.Lock()
 					if !confirmed {
 						slow = append(slow, fmt.Sprintf("%s[%d] needed more than %v under load but terminates when run alone", p.phase, p.idx, hangLimit))
